@@ -161,10 +161,10 @@ Lemma resume_lemma : r_out (step c s d) = Fin OConverged ->
     /\ (forall x, In x bs -> t_start c <= b_num x /\ (t_stop c = 0 \/ b_num x <= t_stop c)).
 Proof.
   intros Ho.
-  destruct (step_converged c (head_seen HD) Tr Tr2 HD TrG Hc (fun _ _ H => proj1 H)
+  destruct (step_converged c (head_seen HD) (fun _ => True) True Tr Tr2 HD TrG Hc (fun _ _ H => proj1 H)
               (fun _ _ _ => forall_true _) (fun _ _ _ => I)
-              (fun k n h H => proj2 H) (fun _ _ _ _ _ _ _ _ _ _ => I)
-              g d s Hpv (W_true c g Hw) Ht Ho)
+              (fun k n h H => proj2 H) (fun _ _ => I) (fun _ _ _ _ _ _ _ _ _ _ => I)
+              g d s Hpv (W_true c g Hw) (Forall_True s) Ht Ho)
     as (p & q & bs & ln & lh & Eg & _ & Hp & [Hwf _] & Hpos & Hn & Hne & Hlen & _).
   exists p, q, bs, ln. split; [exact Eg|]. split; [exact Hp|]. split; [exact Hwf|].
   split; [eapply pos_resume; exact Hpos|]. split; [exact Hn|]. split; [exact Hne|]. split; [exact Hlen|].
@@ -179,10 +179,10 @@ Lemma done_only_if : r_out (step c s d) = Fin ODone ->
   /\ exists p q ln, g = p ++ q /\ resume_point c HD p ln /\ t_stop c <= ln.
 Proof.
   intros Ho.
-  destruct (step_done c (head_seen HD) Tr Tr2 HD TrG Hc (fun _ _ H => proj1 H)
+  destruct (step_done c (head_seen HD) (fun _ => True) True Tr Tr2 HD TrG Hc (fun _ _ H => proj1 H)
               (fun _ _ _ => forall_true _) (fun _ _ _ => I)
-              (fun k n h H => proj2 H) (fun _ _ _ _ _ _ _ _ _ _ => I)
-              g d s Hpv (W_true c g Hw) Ht Ho) as (A & B & p & q & ln & lh & Eg & Hpos & Hle).
+              (fun k n h H => proj2 H) (fun _ _ => I) (fun _ _ _ _ _ _ _ _ _ _ => I)
+              g d s Hpv (W_true c g Hw) (Forall_True s) Ht Ho) as (A & B & p & q & ln & lh & Eg & Hpos & Hle).
   split; [exact A|]. split; [exact B|]. exists p, q, ln.
   split; [exact Eg|]. split; [eapply pos_resume; exact Hpos|exact Hle].
 Qed.
